@@ -299,14 +299,14 @@ def run_case(case, ctx):
     other = "VW" if case["mode"] == "DP" else "DP"
     tol2 = case["tol"] * (4.0 if case.get("style") != "identical" else 1.0)
     pts_in = [[tr.getObs(i).position.getX(), tr.getObs(i).position.getY()] for i in range(tr.size())]
-    r2, _, _ = _judge({"pts": pts_in, "tol": tol2, "mode": other, "style": case.get("style")}, ctx, tr)
+    r2, _, _ = _judge({"pts": pts_in, "tol": tol2, "mode": other, "style": case.get("style"), "_nested": 1}, ctx, tr)
     if r2["v"] == "violated":
         r2["witness"]["history"] = "second simplify() on the same input track (first: %s, tol %r)" % (case["mode"], case["tol"])
         r2["sig"], r2["nt"] = res["sig"], res["nt"]
         return r2
     if out is not None and out.size() >= 2:
         pts_out = [[out.getObs(i).position.getX(), out.getObs(i).position.getY()] for i in range(out.size())]
-        r3, _, _ = _judge({"pts": pts_out, "tol": case["tol"] * 0.5, "mode": other, "style": case.get("style")}, ctx, out)
+        r3, _, _ = _judge({"pts": pts_out, "tol": case["tol"] * 0.5, "mode": other, "style": case.get("style"), "_nested": 1}, ctx, out)
         if r3["v"] == "violated":
             r3["witness"]["history"] = "simplify() applied to the output of an earlier simplify() (%s, tol %r)" % (case["mode"], case["tol"])
             r3["sig"], r3["nt"] = res["sig"], res["nt"]
@@ -340,7 +340,7 @@ def run_case(case, ctx):
             return res
         pts_sub = [[sub.getObs(k).position.getX(), sub.getObs(k).position.getY()] for k in range(sub.size())]
         for mode4, tol4 in ((case["mode"], tol2), (other, case["tol"])):
-            r4, _, _ = _judge({"pts": pts_sub, "tol": tol4, "mode": mode4, "style": case.get("style")}, ctx, sub)
+            r4, _, _ = _judge({"pts": pts_sub, "tol": tol4, "mode": mode4, "style": case.get("style"), "_nested": 1}, ctx, sub)
             if r4["v"] == "violated":
                 r4["witness"]["history"] = ("simplify() on a portion (%s %d..%d) of an input track that was simplified before "
                                             "(first: %s, tol %r)" % (how, i, j, case["mode"], case["tol"]))
@@ -373,7 +373,33 @@ def _judge(case, ctx, tr=None):
     index_of = {t: i for i, t in enumerate(before["t"])}
     base = {"mode": mode, "tolerance": tol, "pts": pts}
 
-    out = M.call(S.simplify, tr, tol, _mode_const(mode))
+    hk = (len(pts) * 7 + int(tol * 1000) + (3 if mode == "DP" else 0)) % 5
+    if hk == 0 and case.get("style") is not None and not case.get("_nested"):
+        # error path first: the same request on a track with an undefined coordinate cannot be honoured; what it
+        # raises is not judged
+        from tracklib.core.obs import Obs
+        from tracklib.core.obs_coords import ENUCoords
+        from tracklib.core.track import Track
+        bad = Track()
+        for i, tms_ in enumerate(ms[:3] if n >= 3 else ms):
+            bad.addObs(Obs(ENUCoords(None if i == 1 else float(i), float(i), 0.0), gen.obstime_from_ms(tms_)))
+        M.call(S.simplify, bad, tol, _mode_const(mode))
+        ctx.count("rejected_request_before_valid_one")
+    if hk == 1 and not case.get("_nested"):
+        # alternative entry point: Network.simplify replaces the geometry of every edge by its simplification
+        def via_network():
+            from tracklib.core.network import Network, Node, Edge
+            net = Network()
+            e = Edge("e0", tr)
+            closed = tuple(pts[0]) == tuple(pts[-1])          # a loop edge: the same node at both ends
+            ns = Node("s", tr.getObs(0).position.copy())
+            net.addEdge(e, ns, ns if closed else Node("t", tr.getObs(n - 1).position.copy()))
+            net.simplify(tol, _mode_const(mode))
+            return net.EDGES["e0"].geom
+        out = M.call(via_network)
+        cls.append("via_network_simplify")
+    else:
+        out = M.call(S.simplify, tr, tol, _mode_const(mode))
     ctx.monitor("returns")
     if M.is_raised(out):
         return violated(dict(base, what="simplify() failed", kind="raised", raised=out), sig, nontrivial, cls)
